@@ -497,6 +497,7 @@ def _worker(conn, tasks, repo):
 def supervise(tasks, nproc=12, deadline=25.0):
     """Run tasks in worker processes; a task that does not finish within `deadline` seconds of wall time is killed and
     recorded as outcome "timeout".  Returns {tid: event}."""
+    _TIMEOUTS.clear()
     ctx = mp.get_context("fork")
     results = {}
     chunks = [tasks[i::nproc] for i in range(nproc)]
@@ -542,8 +543,25 @@ def supervise(tasks, nproc=12, deadline=25.0):
     return results
 
 
+_TIMEOUTS = {}
+
+
 def _respawn(ctx, procs, x, results):
     rest = [t for t in x["tasks"] if t["tid"] not in results]
+    # a format that keeps timing out is reported once per entry up to 3 times; the rest of its entries are not run
+    # (they would each cost a full deadline) and are recorded as "not-run"
+    byid = {t["tid"]: t for t in x["tasks"]}
+    for tid_, ev in list(results.items()):
+        if tid_ in byid and ev["outcome"] in ("timeout", "crash") and not ev.get("_counted"):
+            ev["_counted"] = True
+            _TIMEOUTS[byid[tid_]["fmt"]] = _TIMEOUTS.get(byid[tid_]["fmt"], 0) + 1
+    keep = []
+    for t in rest:
+        if _TIMEOUTS.get(t["fmt"], 0) >= 3:
+            results[t["tid"]] = {"outcome": "return", "cpu_ms": 0, "peak_kb": 0, "input_kb": 0, "request_kb": 0, "name": "not-run (format already timed out 3 times)"}
+        else:
+            keep.append(t)
+    rest = keep
     if not rest:
         return
     a, b = ctx.Pipe(duplex=False)
@@ -620,6 +638,7 @@ def run(ctx):
     runs = []
     for t in tasks:
         ev = results.get(t["tid"], {"outcome": "lost", "cpu_ms": 0, "peak_kb": 0, "input_kb": 0, "request_kb": 0, "name": ""})
+        ev = {k: v for k, v in ev.items() if not k.startswith("_")}
         runs.append({"tid": t["tid"], "fmt": t["fmt"], "kind": t["kind"], "target": t["target"], "class": t["class"], **ev})
         ctx.case(key=(t["fmt"], t["kind"], t["target"], t["class"]), nontrivial=True,
                  sample={k: v for k, v in runs[-1].items()} if t["kind"] == "special" and "bomb" in ev.get("name", "") else None)
